@@ -102,6 +102,16 @@ def kits():
         message('KitTwoVars', [field('parent', 1, 'string', required=True), field('part', 2, 'string', required=True),
                                field('rev', 3, 'int32', required=True), field('verbose', 4, 'bool')]),
         ('get', '/v1/kit/twovars/{parent=shelves/*}/parts/{part=*}/revs/{rev}'), 'KitTwoVars')
+    # REQUIRED among several field behaviours, in every position of the list
+    from google.api import field_behavior_pb2 as fb
+    out['required-several-behaviours'] = (
+        message('KitBehaviours', [field('name', 1, 'string', required=True),
+                                  field('r_last', 2, 'int32', behaviors=[fb.IMMUTABLE, fb.REQUIRED]),
+                                  field('r_mid', 3, 'string', behaviors=[fb.INPUT_ONLY, fb.REQUIRED, fb.IMMUTABLE]),
+                                  field('r_first', 4, 'bool', behaviors=[fb.REQUIRED, fb.IMMUTABLE]),
+                                  field('r_after_optional', 5, 'double', behaviors=[fb.OPTIONAL, fb.REQUIRED]),
+                                  field('not_required', 6, 'int32', behaviors=[fb.IMMUTABLE, fb.INPUT_ONLY])]),
+        ('get', '/v1/kit/behaviours/{name=shelves/*}'), 'KitBehaviours')
     out['required-nested-path'] = (
         message('KitNested', [field('a', 1, Q('A'), required=True), field('r_str', 2, 'string', required=True)]),
         ('get', '/v1/kit/nested/{a.b=apps/*}'), 'KitNested')
